@@ -92,6 +92,8 @@ def emit_stmt(s: list[Any]) -> str:
         return f"{{% extends {q(s[1])} %}}"
     if k == "with":
         return f"{{% with {s[1]}: {s[2]} %}}{emit_body(s[3])}{{% endwith %}}"
+    if k == "case":
+        return f"{{% case {s[1]} %}}{{% when {s[1]} %}}{emit_body(s[2])}{{% endcase %}}"
     raise ValueError(k)
 
 
@@ -105,7 +107,7 @@ def emit(prog: dict[str, Any]) -> dict[str, Any]:
 
 def child_bodies(s: list[Any]) -> list[list[Any]]:
     k = s[0]
-    if k in ("cap", "mac", "blk"):
+    if k in ("cap", "mac", "blk", "case"):
         return [s[2]]
     if k == "if":
         return [s[2]] + ([s[3]] if s[3] is not None else [])
@@ -463,6 +465,225 @@ class NestGen:
                 root.append(["blk", name, b])
         partials["base"] = base
         return root
+
+
+# --------------------------------------------------------------------------- interrupts
+
+
+class IntrGen:
+    """Loops left early.  A partial rendered by `include .. for` / `include .. with <list>` /
+    plain `include` inside an enclosing `for` executes `break` / `continue` on some items
+    (condition on the item, the outer variable or data), possibly from inside a capture /
+    with / case / if / directly rendered block, possibly through a second include level.
+    The interrupt travels through the include (and whatever wraps it) to the enclosing
+    loop.  Afterwards the same context runs further loops: the rest of the outer
+    iteration, later outer iterations, sibling nests, tablerow, partials included or
+    rendered afterwards, macros - whose accounting must be what a fresh evaluation gives.
+    The sibling nests are sized close to the largest product of lengths of the program so
+    that any stale factor in the loop accounting crosses the limit at L = M."""
+
+    WRAPS = ("", "", "cap", "with", "case", "if", "blk", "tr", "for")
+
+    def __init__(self, rng: random.Random, cr: bool = False):
+        self.r = rng
+        self.text = TEXT if cr else PLAIN_TEXT
+        self.mark_i = 0
+        self.n_blk = 0
+        self.data: dict[str, Any] = {}
+
+    def mark(self) -> list[Any]:
+        m = MARKS[self.mark_i % len(MARKS)]
+        self.mark_i += 1
+        return ["t", m]
+
+    def t(self) -> list[Any]:
+        return ["t", self.r.choice(self.text)]
+
+    def seq(self, lo: int = 2, hi: int = 5) -> tuple[str, int]:
+        r = self.r
+        n = r.randint(lo, hi)
+        c = r.random()
+        if c < 0.5:
+            return f"(1..{n})", n
+        if c < 0.75:
+            name = r.choice(["q1", "q2"])
+            self.data[name] = list(range(1, n + 1))
+            return name, n
+        name = r.choice(["m1", "m2"])
+        self.data[name] = n
+        return f"(1..{name})", n
+
+    def cond(self, item: str | None, outer: str | None, n: int) -> str:
+        """A condition that is true for some items / outer iterations and false for others."""
+        r = self.r
+        opts = []
+        if item:
+            k = r.randint(1, max(1, n))
+            self.data["kk"] = k
+            opts += [f"{item} == {k}", f"{item} >= {max(2, k)}", f"{item} == kk", f"forloop.index == {k}"]
+        if outer:
+            opts += [f"{outer} == {r.randint(1, 2)}", f"{outer} != 1", f"{outer} >= kk2"]
+            self.data["kk2"] = r.randint(1, 3)
+        if not opts:
+            opts = ["b1"]
+            self.data["b1"] = True
+        return r.choice(opts)
+
+    def interrupt(self, item: str | None, outer: str | None, n: int) -> list[Any]:
+        """[... {% if cond %}{% break|continue %}{% endif %} ...] possibly inside a construct
+        that holds accounting state of its own."""
+        r = self.r
+        core: list[Any] = [["if", self.cond(item, outer, n), [[r.choice(["brk", "brk", "cont"])]], None]]
+        w = r.choice(["", "", "", "cap", "with", "case", "if"])
+        if w == "cap":
+            core = [["cap", "c9", [self.t(), *core, self.t()]]]
+        elif w == "with":
+            core = [["with", "w", "1", core]]
+        elif w == "case":
+            core = [["case", "1", core]]
+        elif w == "if":
+            core = [["if", "true", core, None]]
+        return core
+
+    def small_loop(self, var: str, maxprod: int) -> tuple[list[Any], int]:
+        n = self.r.randint(1, max(1, min(4, maxprod)))
+        return ["for", var, f"(1..{n})", "", [self.mark(), ["o", var]], None], n
+
+    def program(self) -> dict[str, Any]:
+        r = self.r
+        self.data = {"s1": r.choice(STRS[:4]), "b1": True}
+        partials: dict[str, list[Any]] = {}
+
+        # ---- the partial that interrupts ------------------------------------------
+        mode = r.choice(["for", "for", "for", "withlist", "plain", "with"])
+        A = r.randint(2, 4)  # enclosing loop
+        outer = "o"
+        if mode in ("for", "withlist"):
+            seq_src, n = self.seq()
+            item = "v"
+        else:
+            seq_src, n = "", 1
+            item = None
+        inner_prod = 1
+        pbody: list[Any] = [self.mark(), ["o", item or outer]]
+        if r.random() < 0.4:
+            lp, k = self.small_loop("z", 3)
+            pbody.append(lp)
+            inner_prod = max(inner_prod, k)
+        second = r.random() < 0.25
+        if second:
+            # the interrupt comes from one level further down
+            seq2, n2 = self.seq(2, 3)
+            partials["p2"] = [self.mark(), ["o", "u"], *self.interrupt("u", None, n2), self.t()]
+            pbody.append(["inc", "p2", r.choice(["for", "with"]), seq2, "u", []])
+            inner_prod = max(inner_prod, n2)
+            if r.random() < 0.5:
+                pbody += self.interrupt(item, outer, n)
+        else:
+            pbody += self.interrupt(item, outer, n)
+        pbody.append(self.t())
+        if r.random() < 0.3:
+            lp, k = self.small_loop("y", 3)
+            pbody.append(lp)
+            inner_prod = max(inner_prod, k)
+        partials["p"] = pbody
+
+        if mode == "for":
+            inc = ["inc", "p", "for", seq_src, "v", []]
+        elif mode == "withlist":
+            inc = ["inc", "p", "with", seq_src, "v", []]
+        elif mode == "with":
+            inc = ["inc", "p", "with", outer, "v", []]
+        else:
+            inc = ["inc", "p", "", "", "", []]
+
+        # ---- what the include sits in, inside the enclosing loop ---------------------
+        wrap = r.choice(self.WRAPS)
+        extra = 1
+        core: list[Any] = [inc]
+        if wrap == "cap":
+            core = [["cap", "c1", [self.t(), inc]], ["o", "c1"]]
+        elif wrap == "with":
+            core = [["with", "w", "2", [inc]]]
+        elif wrap == "case":
+            core = [["case", "s1", [inc]]]
+        elif wrap == "if":
+            core = [["if", "true", [inc], [self.t()]]]
+        elif wrap == "blk":
+            core = [["blk", f"k{self.n_blk}", [inc]]]
+            self.n_blk += 1
+        elif wrap == "tr":
+            extra = r.randint(2, 3)
+            core = [["tr", "tt", f"(1..{extra})", "", [self.mark(), inc]]]
+        elif wrap == "for":
+            extra = r.randint(2, 3)
+            core = [["for", "mm", f"(1..{extra})", "", [self.mark(), inc], None]]
+        nest_m = A * extra * n * inner_prod
+        obody: list[Any] = [self.mark(), ["o", outer], *core]
+        after_m = 0
+        if r.random() < 0.6:
+            # the rest of the outer iteration (reached after `continue`d / completed includes)
+            b = r.randint(1, max(1, min(5, (extra * n * inner_prod))))
+            obody.append(["for", "a", f"(1..{b})", "", [self.mark(), ["o", "a"]], None])
+            after_m = A * b
+        if r.random() < 0.3:
+            obody.append(["inc", "p", "for", "(1..2)", "v", []])
+            after_m = max(after_m, A * 2 * inner_prod)
+        nest: list[Any] = ["for", outer, f"(1..{A})", "", obody, None]
+        if r.random() < 0.15:
+            nest = ["tr", outer, f"(1..{A})", "", obody] if wrap != "tr" else nest
+        M = max(nest_m, after_m)
+
+        # ---- later loops on the same context, sized close to M -----------------------
+        def dims(target: int) -> tuple[int, int]:
+            best = (1, max(1, min(target, 6)))
+            for a in range(1, 7):
+                for b in range(1, 7):
+                    if a * b <= target and a * b > best[0] * best[1]:
+                        best = (a, b)
+            return best
+
+        root: list[Any] = []
+        if r.random() < 0.3:
+            lp, _ = self.small_loop("pre", 3)
+            root.append(lp)
+        root += [self.t(), nest, self.t()]
+        partials["q"] = [self.mark(), ["for", "g", "(1..gq)", "", [self.mark(), ["o", "g"]], None]]
+        self.data["gq"] = 1
+        posts = r.sample(["nest", "nest", "tr", "incq", "incqfor", "renq", "mac", "incpfor", "again"], r.randint(1, 3))
+        for kind in posts:
+            target = max(2, r.choice([M, M, M, max(2, M // 2), max(2, (M * 2) // 3)]))
+            a, b = dims(target)
+            inner: list[Any] = ["for", "t2", f"(1..{b})", "", [self.mark(), ["o", "t2"]], None]
+            if kind == "nest":
+                root.append(["for", "s2", f"(1..{a})", "", [self.mark(), inner], None])
+            elif kind == "tr":
+                root.append(["tr", "s2", f"(1..{a})", r.choice(["", " cols: 2"]), [self.mark(), inner]])
+            elif kind == "incq":
+                self.data["gq"] = min(6, max(self.data["gq"], b))
+                root.append(["for", "s2", f"(1..{a})", "", [self.mark(), ["inc", "q", "", "", "", []]], None])
+            elif kind == "incqfor":
+                self.data["gq"] = min(6, max(self.data["gq"], b))
+                root.append(["inc", "q", "for", f"(1..{a})", "v", []])
+            elif kind == "renq":
+                self.data["gq"] = min(6, max(self.data["gq"], b))
+                root.append(["ren", "q", r.choice(["", "for"]), f"(1..{a})", "v", []])
+                if root[-1][2] == "":
+                    root[-1][3] = ""
+                    root[-1][4] = ""
+            elif kind == "mac":
+                root.append(["mac", "mz", [["for", "s2", f"(1..{a})", "", [self.mark(), inner], None]]])
+                root.append(["call", "mz"])
+            elif kind == "incpfor":
+                root.append(["for", "o", f"(1..{min(A, 2)})", "", [self.mark(), ["inc", "p", "for", "(1..2)", "v", []]], None])
+            elif kind == "again":
+                root.append(copy.deepcopy(nest))
+            root.append(self.t())
+        if r.random() < 0.3:
+            root.append(["a", "a1", "s1 | append: 'tail'"])
+            root.append(["cap", "c2", [self.t(), ["o", "a1"]]])
+            root.append(["o", "c2"])
+        return {"root": root, "partials": dict(sorted(partials.items())), "data": self.data, "has_break": True}
 
 
 # --------------------------------------------------------------------------- shrink
